@@ -338,6 +338,127 @@ theorem rvals_append (s0 : Store α) {rd rd2 : Desc} {rows rows2 : List GRow} {k
         rw [List.getElem?_append_right (by omega), hlen]
         exact hv1
 
+/-! ### `uniq` -/
+
+theorem mem_uniq {β : Type} [BEq β] [LawfulBEq β] {l : List β} {a : β} : a ∈ uniq l ↔ a ∈ l := by
+  induction l with
+  | nil => simp [uniq]
+  | cons x xs ih =>
+    simp only [uniq, List.mem_cons, List.mem_filter, ih]
+    constructor
+    · rintro (h | ⟨h, _⟩)
+      · exact Or.inl h
+      · exact Or.inr h
+    · rintro (h | h)
+      · exact Or.inl h
+      · by_cases hax : a = x
+        · exact Or.inl hax
+        · exact Or.inr ⟨h, by simpa using hax⟩
+
+theorem nodup_uniq {β : Type} [BEq β] [LawfulBEq β] (l : List β) : (uniq l).Nodup := by
+  induction l with
+  | nil => simp [uniq]
+  | cons x xs ih =>
+    simp only [uniq, List.nodup_cons, List.mem_filter]
+    refine ⟨?_, ih.filter _⟩
+    rintro ⟨_, h⟩
+    simp at h
+
+/-! ### merged rdm descriptors (`concat`, `from_partials`) -/
+
+theorem Desc.get_mapKeys (H : String → List Lbl) (names : List String) (k : String) (hk : k ∈ names) :
+    Desc.get (names.map (fun n => (n, H n))) k = some (H k) := by
+  induction names with
+  | nil => simp at hk
+  | cons a rest ih =>
+    simp only [List.map_cons, Desc.get_cons]
+    by_cases h : k = a
+    · subst h; simp
+    · simp only [h, if_false]
+      exact ih (by rcases List.mem_cons.mp hk with h1 | h1; exact absurd h1 h; exact h1)
+
+theorem Desc.get_filter_key (pk : String → Bool) (d : Desc) (k : String) (h : pk k = true) :
+    Desc.get (d.filter (fun kv => pk kv.1)) k = Desc.get d k := by
+  induction d with
+  | nil => rfl
+  | cons kv rest ih =>
+    by_cases hp : pk kv.1 = true
+    · simp only [List.filter_cons, hp, if_true, Desc.get_cons, ih]
+    · have hne : k ≠ kv.1 := by intro e; subst e; exact hp h
+      simp only [List.filter_cons, hp, Bool.false_eq_true, if_false, Desc.get_cons, hne, ih]
+
+theorem Desc.mem_keys_of_get {d : Desc} {k : String} {c : List Lbl} (h : Desc.get d k = some c) :
+    k ∈ d.keys := by
+  have := Desc.get_mem h
+  simp only [Desc.keys, List.mem_map]
+  exact ⟨(k, c), this, rfl⟩
+
+/-- one column against one list of rows: same length, row by row the initial RDM's value -/
+def RCol (s0 : Store α) (key : String) (col : List Lbl) (rows : List GRow) : Prop :=
+  col.length = rows.length ∧
+    ∀ (q : Nat) (r : GRow), rows[q]? = some r → ∃ v, col[q]? = some v ∧ RVal s0 r.src key v
+
+theorem rcol_nil (s0 : Store α) (key : String) : RCol s0 key [] [] := by
+  refine ⟨rfl, ?_⟩
+  intro q r hr; simp at hr
+
+theorem rcol_append (s0 : Store α) {key : String} {c1 c2 : List Lbl} {r1 r2 : List GRow}
+    (h1 : RCol s0 key c1 r1) (h2 : RCol s0 key c2 r2) : RCol s0 key (c1 ++ c2) (r1 ++ r2) := by
+  refine ⟨by simp [h1.1, h2.1], ?_⟩
+  intro q r hr
+  by_cases hq : q < r1.length
+  · rw [List.getElem?_append_left hq] at hr
+    obtain ⟨v, hv1, hv2⟩ := h1.2 q r hr
+    exact ⟨v, by rw [List.getElem?_append_left (by rw [h1.1]; exact hq)]; exact hv1, hv2⟩
+  · rw [List.getElem?_append_right (by omega)] at hr
+    obtain ⟨v, hv1, hv2⟩ := h2.2 _ r hr
+    exact ⟨v, by rw [List.getElem?_append_right (by rw [h1.1]; omega), h1.1]; exact hv1, hv2⟩
+
+theorem rcol_mapRows (s0 : Store α) {key : String} {col : List Lbl} {rows : List GRow}
+    (h : RCol s0 key col rows) (f : GRow → GRow) (hf : ∀ r, (f r).src = r.src) :
+    RCol s0 key col (rows.map f) := by
+  refine ⟨by simpa using h.1, ?_⟩
+  intro q r hr
+  rw [List.getElem?_map] at hr
+  cases hq : rows[q]? with
+  | none => rw [hq] at hr; simp at hr
+  | some r0 =>
+    rw [hq] at hr
+    simp only [Option.map_some, Option.some.injEq] at hr
+    subst hr
+    rw [hf r0]
+    exact h.2 q r0 hq
+
+theorem rcol_of_src_eq (s0 : Store α) {key : String} {col : List Lbl} {rows rows' : List GRow}
+    (hsrc : rows'.map (·.src) = rows.map (·.src)) (h : RCol s0 key col rows) : RCol s0 key col rows' := by
+  have hlen : rows'.length = rows.length := by simpa using congrArg List.length hsrc
+  refine ⟨by rw [h.1, hlen], ?_⟩
+  intro q r' hr'
+  have hq : q < rows.length := by
+    by_contra hc
+    rw [List.getElem?_eq_none (by omega)] at hr'
+    simp at hr'
+  have hs : (rows'.map (·.src))[q]? = (rows.map (·.src))[q]? := by rw [hsrc]
+  rw [List.getElem?_map, List.getElem?_map, hr', List.getElem?_eq_getElem hq] at hs
+  simp only [Option.map_some, Option.some.injEq] at hs
+  obtain ⟨v, hv1, hv2⟩ := h.2 q rows[q] (List.getElem?_eq_getElem hq)
+  exact ⟨v, hv1, by rw [hs]; exact hv2⟩
+
+theorem mem_commonKeys {g : GObj} {gs : List GObj} {k : String} (h : k ∈ commonKeys (g :: gs)) :
+    k ∈ g.rk ∧ ∀ g' ∈ gs, k ∈ g'.rk := by
+  simp only [commonKeys, List.mem_filter, List.all_eq_true, List.contains_iff_mem] at h
+  exact h
+
+theorem mem_commonKeys_all {gs : List GObj} {k : String} (h : k ∈ commonKeys gs) : ∀ g ∈ gs, k ∈ g.rk := by
+  cases gs with
+  | nil => simp [commonKeys] at h
+  | cons g rest =>
+    obtain ⟨h1, h2⟩ := mem_commonKeys h
+    intro g' hg'
+    rcases List.mem_cons.mp hg' with rfl | hg'
+    · exact h1
+    · exact h2 g' hg'
+
 /-! ### stores -/
 
 theorem storeInv_get {s0 s : Store α} {g : List GObj} (h : StoreInv s0 s g) {i : Nat} {o : Obj α}
